@@ -331,6 +331,7 @@ class Orchestrator:  # thailint: ignore[srp]
             List of violations found across all files.
         """
         violations = []
+        self._discard_leftover_state()
 
         for file_path in file_paths:
             violations.extend(self.lint_file(file_path))
@@ -393,6 +394,7 @@ class Orchestrator:  # thailint: ignore[srp]
             List of all violations found across all files.
         """
         violations = []
+        self._discard_leftover_state()
         # Use fast file collection that skips excluded directories entirely
         file_paths = _collect_files_fast(dir_path, recursive)
 
@@ -429,6 +431,7 @@ class Orchestrator:  # thailint: ignore[srp]
         if len(file_paths) < effective_workers * 2:
             return self.lint_files(file_paths)
 
+        self._discard_leftover_state()
         violations = self._execute_parallel_linting(file_paths, effective_workers)
         violations.extend(self._finalize_rules())
         return violations
@@ -458,6 +461,12 @@ class Orchestrator:  # thailint: ignore[srp]
             _verif_tap("<future>", None)
             logger.exception("Error extracting violations from worker future")
             return []
+
+    def _discard_leftover_state(self) -> None:
+        """Drop cross-file state left behind by earlier lint_file() calls on this object."""
+        if self._rules_discovered:
+            for rule in self.registry.list_all():
+                rule.finalize()
 
     def _finalize_rules(self) -> list[Violation]:
         """Call finalize() on all rules for cross-file analysis."""
